@@ -51,8 +51,8 @@ def _join(parts):
     return out
 
 
-_UNQ_SRC = {"n": ",n", "s": ",s", "e": ",(n + 1)", "v": ",(v.clone())"}
-_UNQ_TXT = {"n": "42", "s": '"str"', "e": "43", "v": "sym"}
+_UNQ_SRC = {'n': ',n', 's': ',s', 'e': ',(n + 1)', 'v': ',(v.clone())', 'b': ',(n > 1)', 'c': ',ch', 'f': ',fl', 'o': ',(String::from("own"))', 'y': ',(vec![1u8, 2u8])', 'p': ',((1, "x"))', 'w': ',(vec![Value::from(1), Value::from(2)])', 'u': ',(7u64)', 'i': ',(-7i8)'}
+_UNQ_TXT = {'n': '42', 's': '"str"', 'e': '43', 'v': 'sym', 'b': '#t', 'c': '#\\λ', 'f': '2.5', 'o': '"own"', 'y': '#u8(1 2)', 'p': '(1 . "x")', 'w': '#(1 2)', 'u': '7', 'i': '-7'}
 
 
 def render(p, rust):
@@ -89,7 +89,7 @@ def render(p, rust):
             return [58] + _utf8(p["s"])
         return [35, 58] + _str_text(p["s"])
     if t == "unq":
-        return list((_UNQ_SRC if rust else _UNQ_TXT)[p["w"]].encode())
+        return list((_UNQ_SRC if rust else _UNQ_TXT)[p["w"]].encode("utf-8"))
     if t == "list":
         body = _join([render(e, rust) for e in p["es"]])
         if p["tail"]["t"] != "none":
@@ -176,7 +176,7 @@ def _rand_atom(rng):
                     break
         return {"t": "kw", "style": st, "s": _cps(s)}
     if k == 11:
-        return {"t": "unq", "w": rng.choice("nsev")}
+        return {"t": "unq", "w": rng.choice(sorted(_UNQ_SRC))}
     return {"t": "list", "es": [], "tail": {"t": "none"}}
 
 
@@ -214,7 +214,7 @@ def write_generated(path, progs, skip):
             if i in skip:
                 f.write("fn p%d() -> Value { Value::Nil }\n" % i)
             else:
-                f.write('fn p%d() -> Value { let n = 42i32; let s = "str"; let v = Value::symbol("sym"); sexp!(%s) }\n'
+                f.write("fn p%d() -> Value { let n = 42i32; let s = \"str\"; let v = Value::symbol(\"sym\"); let ch = '\\u{3bb}'; let fl = 2.5f64; sexp!(%s) }\n"
                         % (i, bytes(pr["src"]).decode("utf-8")))
         f.write("static CASES: &[(u32, fn() -> Value, &[u8])] = &[\n")
         for i, pr in enumerate(progs):
@@ -345,7 +345,7 @@ def run(ctx):
     progs = [{"p": r["p"], "src": r["src"], "text": r["text"], "fam": r["fam"]} for r in res.replay]
     n_model = len(progs)
     rng = random.Random(ctx.seed * 7919 + 9)
-    n_rand = 1500 if q else 20000
+    n_rand = 1500 if q else 50000
     seen = set(bytes(p["src"]) for p in progs)
     while len(progs) < n_model + n_rand:
         p = rand_program(rng, rng.choice([2, 3, 4, 5, 5]))
@@ -393,7 +393,8 @@ def run(ctx):
         "(Rust comments) and names the reference reader leaves unspecified (a lone @)",
         "floats in exponent form are generated with at most 8 significant digits and an effective exponent within +-22, the class "
         "for which the parser documents correct rounding (C05); beyond it the parser may differ from rustc's literal by an ulp",
-        "unquoted expressions are n = 42i32, s = \"str\", (n + 1) and v = Value::symbol(\"sym\"); the expected text is the printed value",
+        "unquoted expressions: one per From impl of Value (i32, u64, i8, f64, bool, char, &str, String, Vec<u8>, (T, U), Vec<Value>, "
+        "Value) and an arithmetic and a comparison expression; the expected text is the printed value",
     ]
 
 
